@@ -69,6 +69,9 @@ fn start_testing_server(rt: &tokio::runtime::Runtime) -> kvarn_testing::Server {
 fn kind(k: &str) -> (&'static str, &'static str, Vec<(&'static str, &'static str)>, Option<Vec<u8>>) {
     match k {
         "get" => ("GET", "/hello", vec![], None),
+        // `pad<N>`: one header field of N bytes — swept so that the HTTP/1.1 head takes every length around the sizes at which
+        // the server's read buffer is full (512 bytes, then doubling): the head's last bytes then arrive in a read of their own
+        _ if k.starts_with("pad") => ("GET", "/hello", vec![("x-pad", &PAD[..k[3..].parse::<usize>().unwrap().min(PAD.len())])], None),
         // many small header fields: a few KiB on the HTTP/1.1 wire, far more by HTTP/2's per-field accounting (32 bytes a field)
         "manyfields" => ("GET", "/hello", MANY_FIELDS.iter().map(|(n, v)| (n.as_str(), *v)).collect(), None),
         "cookies" => ("GET", "/cookies", vec![], None),
@@ -97,6 +100,7 @@ fn kind(k: &str) -> (&'static str, &'static str, Vec<(&'static str, &'static str
         _ => unreachable!("{k}"),
     }
 }
+static PAD: std::sync::LazyLock<String> = std::sync::LazyLock::new(|| "p".repeat(9000));
 static MANY_FIELDS: std::sync::LazyLock<Vec<(String, &'static str)>> = std::sync::LazyLock::new(|| (0..450).map(|i| (format!("x-h-{i:03}"), "v")).collect());
 const KINDS: [&str; 25] = ["manyfields", "cookies", "headcookies", "post20k", "post20k1", "post50k", "post200k", "get", "head", "getgz", "getbr", "headgz", "uncached", "empty", "missing", "headmissing", "range", "range416", "unsafe", "png406", "cors", "options", "post", "postbig", "put"];
 
@@ -148,6 +152,11 @@ impl Group for Pair {
     fn generate(&self, ctx: &Ctx, rng: &mut Rng) -> Vec<String> {
         let n = if ctx.mode == Mode::Quick { 30 } else { 600 };
         let mut v = vec![format!("c20.pair {}", list(KINDS.iter().map(|s| (*s).to_owned())))];
+        // heads of every length around 513, 1025, 2049, 4097, 8193 bytes (the request line, `host`, `accept` and the field's
+        // own name take 60-100 of them)
+        for t in [513usize, 1025, 2049, 4097, 8193] {
+            v.push(format!("c20.pair {}", list((t - 115..t - 35).map(|n| format!("pad{n}")))));
+        }
         for _ in 0..n {
             v.push(format!("c20.pair {}", list((0..rng.range(1, 8)).map(|_| (*rng.pick(&KINDS)).to_owned()))));
         }
